@@ -1,4 +1,4 @@
-import Ledger.Proofs.CtrlAcc
+import Ledger.Proofs.CtrlSpec
 import Ledger.Proofs.CtrlExamples
 
 /-!
@@ -6,12 +6,10 @@ import Ledger.Proofs.CtrlExamples
 first creation only (controller layer; metadata HISTORY / point-in-time reads are
 the SQL layer's concern and out of scope here)
 
-Proved: the store-contract facts the statement rests on (later save wins, chart
-defaults only when the row is created and below the explicit values, delete
-removes exactly the key), for all inputs.  The equality of the tables with the
-fold of the journal (`specOf`) over every history is stated below and, at this
-stage, TESTED after every operation of every generated history against the real
-code, not proved.
+Proved for ALL histories: the tables' metadata equal the fold of the journal
+(`current_meta_eq_fold`), plus the store-contract facts behind it (later save
+wins, chart defaults only when the row is created and below the explicit values,
+delete removes exactly the key).
 -/
 namespace Ledger.C17
 open Ledger.Ctrl Ledger.Core Ledger.Ctrl.Examples
@@ -56,12 +54,24 @@ theorem delete_removes_key (d : Db) (a key : String) (acc : Account) (hex : d.ac
   simp only [hex]
   exact ⟨_, get?_insert_self _ _ _, rfl⟩
 
-/-- The full statement (tested, not proved here). -/
-def current_meta_eq_fold_statement : Prop :=
-  ∀ (strict : Bool) (ops : List Op),
-    (projAccounts (runHist strict {} ops).db).map (fun e => (e.1, e.2.metadata)) =
-      ((specOf (runHist strict {} ops).db.logs).accounts).map (fun e => (e.1, e.2.metadata)) ∧
-    projTxMeta (runHist strict {} ops).db = (specOf (runHist strict {} ops).db.logs).txMeta
+/-- After ANY sequential history (failing, dry-run, idempotent operations included)
+    the current metadata of every account and of every transaction is exactly the
+    reference reading of the journal (`specOf`, Ledger/Ctrl/Spec.lean): the saves in
+    order (later values win) minus the deletes, chart defaults added below the
+    explicit values when the account is first created and never again. -/
+theorem current_meta_eq_fold (strict : Bool) (ops : List Op) :
+    projAccounts (runHist strict {} ops).db = (specOf (runHist strict {} ops).db.logs).accounts ∧
+    projTxMeta (runHist strict {} ops).db = (specOf (runHist strict {} ops).db.logs).txMeta := by
+  have h := runHist_spec strict {} ops SpecOk.empty
+  unfold SpecOk at h
+  rw [h]
+  exact ⟨rfl, rfl⟩
+
+/-- The same for one more operation on any state that agrees with its journal, under
+    any injected fault. -/
+theorem current_meta_eq_fold_step (strict : Bool) (s : State) (op : Op) (f : Option Fault) (cf : Bool)
+    (h : SpecOk s.db) : SpecOk (stepF strict s op f cf).1.db :=
+  forgeLog_spec strict op f cf s h
 
 /-! tests of the full statement on concrete histories -/
 example : projTxMeta (runHist false s1 [pay false, overdraw]).db = (specOf (runHist false s1 [pay false, overdraw]).db.logs).txMeta := by
